@@ -1,6 +1,7 @@
 import NeumannModel.Common.Proto
 import NeumannModel.Blob.Model
 import NeumannModel.Blob.Conc
+import NeumannModel.Blob.Writers
 /-
   Line-protocol driver for the blob-store model (C19).  Keys are the chunk
   bytes themselves (`h = id`); artifact ids are `a<n>` in creation order.
@@ -99,6 +100,11 @@ def showR {α : Type} (f : α → String) : Except Err α → String
   | .ok a => "ok " ++ f a
   | .error e => showErr e
 
+/-- the open-writer operations run the very function the theorems of `WritersLemmas` / `Props` are about -/
+def wstep (ds : DState) (op : WOp) : DState :=
+  let x := applyW hid ds.cfg ⟨ds.st, ds.writers⟩ op
+  { ds with st := x.st, writers := x.writers }
+
 def blobStep (ds : DState) (line : String) : DState × String :=
   let bad := (ds, "bad-op")
   let s := ds.st
@@ -121,27 +127,26 @@ def blobStep (ds : DState) (line : String) : DState × String :=
       | some t, some ps => ({ ds with st := streamAbandon hid ds.cfg t s ps }, "ok")
       | _, _ => bad
   | ["wopen", w] => match w.toNat? with
-      | some w => ({ ds with writers := (w, Writer.new) :: erase w ds.writers }, "ok")
+      | some w => (wstep ds (.wopen w), "ok")
       | none => bad
   | ["wwrite", w, t, d] => match w.toNat?, t.toNat?, unhex d with
       | some w, some t, some d =>
         (match find w ds.writers with
          | none => bad
-         | some wr =>
-           let r := wWrite hid ds.cfg.chunkSize t s wr d
-           ({ ds with st := r.1, writers := (w, r.2) :: erase w ds.writers },
-            s!"ok {r.2.chunks.length} {r.2.total}"))
+         | some _ =>
+           let ds' := wstep ds (.wwrite w t d)
+           (ds', match find w ds'.writers with
+                 | some wr => s!"ok {wr.chunks.length} {wr.total}"
+                 | none => "bad-op"))
       | _, _, _ => bad
   | ["wfinish", w, t] => match w.toNat?, t.toNat? with
       | some w, some t =>
         (match find w ds.writers with
          | none => bad
-         | some wr =>
-           let r := wFinish hid t s wr
-           ({ ds with st := r.1, writers := erase w ds.writers }, s!"ok a{r.2}"))
+         | some _ => (wstep ds (.wfinish w t), s!"ok a{s.next}"))
       | _, _ => bad
   | ["wdrop", w] => match w.toNat? with
-      | some w => ({ ds with writers := erase w ds.writers }, "ok")
+      | some w => (wstep ds (.wdrop w), "ok")
       | none => bad
   | ["get", a] => match parseArt a with
       | some id => (ds, match get s id with | .ok d => "ok " ++ hex d | .error e => showErr e)
